@@ -194,6 +194,8 @@ def run(tier):
     rule_R5(res, prog)
     rule_R6(res, prog)
     rule_R7(res, prog)
+    rule_R8(res, prog)
+    rule_R9(res, prog)
     return res.finish()
 
 
@@ -563,3 +565,190 @@ def rule_R7(res, prog):
                      file=fa.relfile, line=esc[-1][1])
     res.instance(rid, "psX509AuthenticateCert: authStatus = PASS passes the issuer keyUsage test on every path from the loop head", esc is None, finding=f_)
     res.floor(rid, 2)
+
+
+def rule_R8(res, prog):
+    """Path length respected: in matrixValidateCertsExt the depth handed to checkPathLenConstraint counts every certificate
+    that was stepped over - on every path from one checkPathLenConstraint call to the next one, if the subject cursor (its
+    second argument) was advanced in between, the depth variable (its third argument) was incremented in between.
+    (Candidate issuers tried for the same subject are consecutive calls without an advance and need no increment.)"""
+    from sa import cfgutil as cu
+    from sa.pp import pp
+    rid = "C03.R8"
+    res.rule(rid, "the depth passed to checkPathLenConstraint is incremented whenever the subject cursor advances between two calls")
+    fn = prog.fn("matrixValidateCertsExt")
+    sites = cu.find_sites(fn, lambda n: n.get("k") == "call" and n.get("fn") == "checkPathLenConstraint" and len(n.get("a", [])) >= 3)
+    if len(sites) < 2:
+        raise AnalysisBroken("C03.R8: fewer than two checkPathLenConstraint calls in matrixValidateCertsExt")
+    for (bid0, idx0, ln0, call0) in sites:
+        subj = strip(call0["a"][1])
+        depth = strip(call0["a"][2])
+        if subj is None or depth is None or subj.get("k") != "var" or depth.get("k") != "var":
+            continue
+        sid_, did = subj.get("id"), depth.get("id")
+        seen = set()
+        stack = [(bid0, idx0, False, [])]
+        bad = None
+        while stack and bad is None:
+            bid, after, adv, path = stack.pop()
+            if (bid, after, adv) in seen:
+                continue
+            seen.add((bid, after, adv))
+            b = fn.bmap[bid]
+            started = after is None
+            stop = False
+            for i, ln, x in cu.block_exprs(b):
+                if not started:
+                    if i == after:
+                        started = True
+                    continue
+                for m in walk(x):
+                    if m.get("k") == "bin" and m["op"] == "=" and (strip(m["l"]) or {}).get("id") == sid_:
+                        adv = True
+                    if (m.get("k") == "un" and "++" in m["op"] and (strip(m["e"]) or {}).get("id") == did) or \
+                            (m.get("k") == "bin" and m["op"] == "+=" and (strip(m["l"]) or {}).get("id") == did):
+                        stop = True
+                    if m.get("k") == "call" and m.get("fn") == "checkPathLenConstraint" and m is not call0 or \
+                            (m is call0 and (bid, i) != (bid0, idx0)):
+                        pass
+                if stop:
+                    break
+                if any(m.get("k") == "call" and m.get("fn") == "checkPathLenConstraint" for m in walk(x)) and not (bid == bid0 and i == idx0 and after is not None):
+                    if adv:
+                        bad = (ln, path + [ln])
+                    stop = True
+                    break
+                if x.get("k") == "ret":
+                    stop = True
+                    break
+            if stop or bad:
+                continue
+            t = b.get("term")
+            for sc in b["succ"]:
+                if sc.get("b") is not None:
+                    stack.append((sc["b"], None, adv, (path + [t.get("ln") if t else None])[-6:]))
+        f_ = None
+        if bad is not None:
+            f_ = Finding(PROP, rid, fn.name, "depth not incremented for a certificate stepped over",
+                         "%s:%s matrixValidateCertsExt(): after checkPathLenConstraint(.., %s, %s) at line %s the subject cursor %s advances and "
+                         "the next checkPathLenConstraint call (line %s) is reached without %s++ (via lines %s): the issuer's "
+                         "pathLenConstraint is compared with a depth that is one too small, so a chain with one intermediate CA too many "
+                         "is accepted" % (fn.relfile, ln0, subj["n"], depth["n"], ln0, subj["n"], bad[0], depth["n"], bad[1]),
+                         file=fn.relfile, line=ln0)
+        res.instance(rid, "matrixValidateCertsExt:%s every advance of %s before the next check increments %s" % (ln0, subj["n"], depth["n"]),
+                     bad is None, finding=f_)
+    res.floor(rid, 2)
+
+
+def rule_R9(res, prog):
+    """`This certificate is the trusted one` (the identity shortcut that replaces signature verification, C03.R1's second
+    alternative) must rest on the to-be-signed content in the form the parser kept it.  For algorithms that sign the
+    message itself (Ed25519) the parser computes no digest - sigHash stays all zero - and buffers the TBSCertificate
+    instead.  So wherever two certificates' sigHash are compared for equality, every path from the `equal` outcome to the
+    arm the whole condition guards also crosses `tbsCertStart == NULL` (a digest exists) or the `equal` outcome of a
+    comparison of the two tbsCertStart buffers."""
+    from sa import cfgutil as cu
+    from sa.pp import pp
+    rid = "C03.R9"
+    res.rule(rid, "certificate identity by digest also compares the buffered TBSCertificate when no digest was computed (Ed25519)")
+    CMP = ("memcmpct", "memcmp", "__builtin_memcmp")
+
+    def both_field(call, f):
+        a = call.get("a", [])
+        return len(a) >= 2 and all(any(m.get("k") == "mem" and m.get("f") == f for m in walk(x)) for x in a[:2])
+    # does the parser ever leave sigHash uncomputed while buffering the TBS?  (otherwise the rule is vacuous)
+    buffers = any(n.get("k") == "bin" and n["op"] == "=" and (strip(n["l"]) or {}).get("f") == "tbsCertStart"
+                  for f_ in prog.functions.values() if f_.relfile.endswith("x509.c") for b, ln, n in f_.nodes())
+    n = 0
+    for fn in sorted(prog.functions.values(), key=lambda f: f.qname):
+        if not fn.blocks or not (fn.relfile.startswith("crypto/keyformat") or fn.relfile.startswith("matrixssl/")):
+            continue
+        for b in fn.blocks:
+            t = b.get("term")
+            if t is None or "c" not in t or len(b["succ"]) != 2:
+                continue
+            calls = [m for m in walk(t["c"]) if m.get("k") == "call" and m.get("fn") in CMP and both_field(m, "sigHash")]
+            if not calls:
+                continue
+            n += 1
+            if not buffers:
+                res.instance(rid, "%s:%s sigHash equality (no parser path buffers the TBS in this configuration)" % (fn.name, t["ln"]), True)
+                continue
+            # the arm guarded by the whole condition: follow the `equal` edges through the && chain
+            eq_edge = None
+            for k in (0, 1):
+                for (txt, tr, nd) in cu._cond_atoms(t["c"], k == 0):
+                    nd0 = strip(nd)
+                    if nd0 is not None and nd0.get("k") == "call" and nd0 is calls[0] and not tr:
+                        eq_edge = k
+                    if nd0 is not None and nd0.get("k") == "bin" and nd0["op"] == "==" and any(m is calls[0] for m in walk(nd0)) and tr:
+                        eq_edge = k
+            if eq_edge is None:
+                eq_edge = 0
+            # blocks of the chain: reachable through and/or terminators
+            chain = set()
+            st = [b["succ"][eq_edge].get("b")]
+            arm = None
+            while st:
+                x = st.pop()
+                if x is None or x in chain:
+                    continue
+                bx = fn.bmap[x]
+                tx = bx.get("term")
+                if tx is not None and "c" in tx and (tx.get("k") in ("and", "or", "&&", "||") or tx.get("ln") == t.get("ln") or
+                                                      (t.get("ln") or 0) <= (tx.get("ln") or 0) <= (t.get("ln") or 0) + 12) and not cu.block_exprs(bx)[:-1]:
+                    chain.add(x)
+                    for sc in bx["succ"]:
+                        st.append(sc.get("b"))
+            # arm = first non-chain block reached by `true` edges of the last chain block on the all-true path
+            cur = b["succ"][eq_edge].get("b")
+            guard = 0
+            while cur in chain and guard < 40:
+                guard += 1
+                bx = fn.bmap[cur]
+                # prefer the edge that keeps the conjunction true: true edge for plain / `and`, for `or` either -> take true
+                cur = bx["succ"][0].get("b")
+            arm = cur
+
+            def ok_edge(bb, k):
+                tt = bb.get("term")
+                if tt is None or "c" not in tt or len(bb["succ"]) != 2:
+                    return False
+                for (txt, tr, nd) in cu._cond_atoms(tt["c"], k == 0):
+                    nd0 = strip(nd)
+                    if nd0 is None:
+                        continue
+                    if nd0.get("k") == "call" and nd0.get("fn") in CMP and both_field(nd0, "tbsCertStart") and not tr:
+                        return True
+                    if nd0.get("k") == "mem" and nd0.get("f") == "tbsCertStart" and not tr:
+                        return True
+                    if nd0.get("k") == "bin" and nd0["op"] == "==" and tr and any(m.get("k") == "mem" and m.get("f") == "tbsCertStart" for m in walk(nd0)) \
+                            and any(m.get("k") == "int" and m["v"] == 0 for m in walk(nd0)) and not any(m.get("k") == "bin" and m["op"] == "==" and m is not nd0 for m in walk(nd0)):
+                        return True
+                return False
+            # search: from the equal edge to `arm` inside the chain, avoiding ok edges
+            seen, st2, reach = set(), [b["succ"][eq_edge].get("b")], False
+            while st2 and not reach:
+                x = st2.pop()
+                if x is None or x in seen:
+                    continue
+                seen.add(x)
+                if x == arm:
+                    reach = True
+                    break
+                if x not in chain:
+                    continue
+                bx = fn.bmap[x]
+                for k, sc in enumerate(bx["succ"]):
+                    if not ok_edge(bx, k):
+                        st2.append(sc.get("b"))
+            f_ = None
+            if reach:
+                f_ = Finding(PROP, rid, fn.name, "identity by an uncomputed digest",
+                             "%s:%s %s(): two certificates are taken to be identical when their sigHash compare equal, but for signature "
+                             "algorithms without a pre-hash (Ed25519) the parser leaves sigHash all zero and buffers the TBSCertificate in "
+                             "tbsCertStart; the guarded arm is reachable without comparing the two tbsCertStart buffers (and without "
+                             "tbsCertStart == NULL): a certificate with another key, the same subject and copied signature bytes is "
+                             "accepted as the trusted one" % (fn.relfile, t["ln"], fn.name), file=fn.relfile, line=t["ln"])
+            res.instance(rid, "%s:%s sigHash equality is backed by a TBS comparison when no digest exists" % (fn.name, t["ln"]), not reach, finding=f_)
+    res.floor(rid, 1)
